@@ -54,13 +54,22 @@ StuckS(st) == /\ QuiescentS(st) /\ ~st.stopped
               /\ \A d \in Dest : Len(st.q[d]) < LowC
               /\ (st.rpaused \/ \E c \in Recv : st.rconn[c] /\ ~st.prod[c])
 
-PropFlags(post, p) ==
+PropFlags(post, p, e) ==
      (IF \E d \in Dest : OutOf(post.wire[d], post.q[d]) # OutOf(p.wire[d], p.q[d]) THEN {"content"} ELSE {})
 \cup (IF p.drops # post.drops THEN {"drops"} ELSE {})
 \cup (IF p.fake # post.fake THEN {"fake"} ELSE {})
 \cup (IF \E d \in Dest : \E k \in 1..Len(p.wire[d]) : Len(p.wire[d][k]) < 1 \/ Len(p.wire[d][k]) > MaxPerMsg
         THEN {"batch"} ELSE {})
 \cup (IF p.closedNonEmpty THEN {"stopflush"} ELSE {})
+\* the routes are taken from the recorded execution (the hash ring decides them), but not blindly: while a destination
+\* is configured after the callback, nothing routed during it may have gone nowhere, and a route only names
+\* destinations configured before or after it
+\* (not judged once the orderly stop has begun: the manager is being dismantled then)
+\cup (IF ~s.stopped /\ \E k \in 1..Len(Ov(e)) : \/ (Ov(e)[k] = {} /\ \E d \in Dest : p.has[d])
+                                   \/ ~(Ov(e)[k] \subseteq {d \in Dest : p.has[d] \/ s.has[d]})
+        THEN {"misrouted"} ELSE {})
+\* a destination that still holds queued datapoints is never given up: it is connected, connecting or waiting to retry
+\cup (IF \E d \in Dest : p.cs[d] = "stopped" /\ p.q[d] # <<>> THEN {"abandoned"} ELSE {})
 \cup (IF StuckS(Overlay(post, p)) THEN {"stuck"} ELSE {})
 \cup (IF ~SendScheduledS(Overlay(post, p)) THEN {"undelivered"} ELSE {})
 
@@ -87,7 +96,7 @@ TStep ==
   /\ l <= Len(Ev)
   /\ LET e == Ev[l]
          post == Post(e) IN
-     /\ flags' = flags \cup {<<f, l>> : f \in PropFlags(post, e.p)} \cup {<<f, 0>> : f \in DriftFlags(post, e.p)}
+     /\ flags' = flags \cup {<<f, l>> : f \in PropFlags(post, e.p, e)} \cup {<<f, 0>> : f \in DriftFlags(post, e.p)}
      /\ s' = Overlay(post, e.p)
      /\ hi' = IF e.e = "ArriveHi" THEN hi \cup {e.i} ELSE hi
      /\ nitems' = IF e.e \in {"Arrive", "ArriveHi"} THEN e.i ELSE nitems
